@@ -17,7 +17,7 @@ From TV Require Import Num.QNum.
 From TV Require Import Model.Common Model.Leaf Gen.GridTracksGen Model.GridTracks Model.GridIntrinsic.
 From TV Require Import Model.FiltersBase Gen.FiltersGen Model.ItemFilters Model.GridAlgBase Model.GridAlg.
 From TV Require Import Proofs.GridAlgProg Proofs.GridAlgStruct Proofs.GridAlgIface Proofs.GridAlgVisits.
-From TV Require Import Model.Engine Proofs.EngineBlind Proofs.EngineAbs.
+From TV Require Import Model.Engine Proofs.EngineBlind Proofs.EngineAbs Proofs.EngineAbsKey.
 Import ListNotations.
 Close Scope Z_scope.
 Close Scope N_scope.
@@ -245,6 +245,25 @@ Section Lines.
     rewrite (ln_eqb_eq _ _ A1), (ln_eqb_eq _ _ B1), (ln_eqb_eq _ _ A2), (ln_eqb_eq _ _ B2). split; reflexivity.
   Qed.
 End Lines.
+
+(* ------------------------------------------------------------------------------------------------ AbsBlind keyed by the lines *)
+
+Section Keyed.
+  Context {T : Type} `{Num T}.
+  Notation GS := (GStyle T).
+  Notation Out := (LayoutOutput T).
+
+  (* what a grid parent may read of an absolute child's style *)
+  Definition g_lines (s : GS) : PB.Ln PB.GP * PB.Ln PB.GP := (gs_row s, gs_column s).
+
+  Theorem grid_alg_abs_blind_keyed :
+    AbsBlindK GS (GIn T) Out (GLay T) grid_alg g_visible_absolute (PB.Ln PB.GP * PB.Ln PB.GP) g_lines gout_eq glay_eq.
+  Proof.
+    intros s st st' i Hr. apply (grid_alg_abs_bis g_visible_absolute (fun _ E => E)).
+    clear -Hr. induction Hr as [|a b l l' Hab Hl IH]; constructor; [|exact IH].
+    destruct Hab as [->|(A & B & E)]; [left; reflexivity|]. right. unfold g_lines in E. injection E as Er Ec. repeat split; assumption.
+  Qed.
+End Keyed.
 
 (* ------------------------------------------------------------------------------------------------ full AbsBlind is false *)
 
